@@ -485,3 +485,9 @@ def probe_known(ctx, finding):
         return False
     f = oracle(sit, inp["backend"], inp.get("fault_at_call"), inp.get("all_calls_of_kind_fail"), r)
     return f is not None and f["signature"] == finding["signature"]
+
+
+# the long-lived process: the same probe session after earlier sessions of the same server (props/history.py)
+from props import history as _history  # noqa: E402
+
+correspondence, search, replay = _history.attach(PID, correspondence, search, replay, pasts=['backend-failures', 'listing-failed-half-way'])
